@@ -24,6 +24,11 @@ def generate(rng, tier, shard, nshards):
         feat = aops.afeat(A)
         style, style2 = rng.choice(aops.STATE_STYLES), rng.choice(aops.STATE_STYLES)
         base = {"sr": srn, "A": A, "sigma": sig, "L": L, "style": style, "cls": cls}
+        if i % 3 == 1:
+            # the operand object was used before, e.g. its closure was built (the expression A + A^+): it is still A
+            base["pre"] = [rng.choice(["kleene_plus", "star", "add_self", "mul_self", "reverse", "epsremove"])
+                           for _ in range(rng.randint(1, 2))]
+            feat = feat + "+operand-used-before"
         for fn in ("add", "mul"):
             yield event("wop", dict(base, fn=fn, B=B, style2=style2), site=f"WFSA.{fn}", feat=feat)
         for fn in ("reverse", "renumber", "rename", "spawn_all"):
@@ -68,8 +73,10 @@ def generate(rng, tier, shard, nshards):
         yield e1
         if "exc" not in e1 and not e1.get("skip"):
             for fn in ("kleene_plus", "star"):
-                yield event("wop", {"sr": srn, "A": e1["out"], "sigma": sig, "L": 3, "fn": fn, "style": style2, "cls": cls},
-                                 site=f"WFSA.{fn}(plus)", feat="plus-of-plus")
+                e2 = event("wop", {"sr": srn, "A": e1["out"], "sigma": sig, "L": 3, "fn": fn, "style": style2, "cls": cls},
+                           site=f"WFSA.{fn}(plus)", feat="plus-of-plus")
+                e2["derived"] = True
+                yield e2
         # nested expressions: the (projected) result of one operation is the operand of the next, each step judged
         cur = A
         for depth in range(2):
@@ -80,6 +87,8 @@ def generate(rng, tier, shard, nshards):
             if fn in ("add", "mul"):
                 args["B"], args["style2"] = B, style2
             e = event("wop", args, site=f"WFSA.nested/{fn}", feat="nested+" + feat)
+            if depth > 0:
+                e["derived"] = True
             yield e
             if "exc" in e or e.get("skip") or e["out"]["n"] > 6:
                 break
